@@ -19,7 +19,15 @@ func c15Pool() *SharePool {
 	var p SharePool
 	p.Balance = *c15Q("B")
 	p.TotalShares = *c15Q("S")
+	// the repository's own sanity invariant (staking/api/sanity_check.go):
+	// a pool without shares holds no balance
+	symx.Assume(!p.TotalShares.IsZero() || p.Balance.IsZero())
 	return &p
+}
+
+// c15Inv asserts that the sanity invariant is preserved (inductive step).
+func c15Inv(p *SharePool) {
+	symx.Assert(!p.TotalShares.IsZero() || p.Balance.IsZero(), "pool left with balance but no shares")
 }
 
 // le reports a*b <= c*d over quantities.
@@ -79,6 +87,7 @@ func VerifC15Deposit() {
 	after, err := p.StakeForShares(x)
 	symx.Assert(err == nil, "StakeForShares failed")
 	symx.Assert(after.Cmp(before) >= 0, "another holder's redeemable value fell on deposit")
+	c15Inv(p)
 }
 
 // VerifC15Withdraw: a redemption pays at most the pro-rata worth and never
@@ -117,6 +126,7 @@ func VerifC15Withdraw() {
 	symx.Assert(wantOwn.Sub(k) == nil && own.Cmp(wantOwn) == 0, "share source not debited by exactly the redeemed shares")
 	after, _ := p.StakeForShares(x)
 	symx.Assert(after.Cmp(before) >= 0, "another holder's redeemable value fell on redemption")
+	c15Inv(p)
 }
 
 // VerifC15RoundTrip: depositing and immediately redeeming the minted shares
@@ -138,36 +148,32 @@ func VerifC15RoundTrip() {
 	symx.Cover("roundtrip-ok")
 }
 
-// VerifC15TwoDepositors: two depositors interleave deposit / redeem steps; no
-// one ever gets back more than put in (no rewards in between), whatever the order.
-func VerifC15TwoDepositors() {
+// VerifC15Sequence: one account performs n deposit / redeem steps against an
+// arbitrary pool whose other holders stay passive; at no point can it have
+// taken out, or be able to take out, more than it put in.
+func VerifC15Sequence() {
 	p := c15Pool()
-	var in, out, sh [2]*quantity.Quantity
-	for i := range in {
-		in[i], out[i], sh[i] = quantity.NewQuantity(), quantity.NewQuantity(), quantity.NewQuantity()
-	}
-	n := symx.Cfg("n", 3)
+	in, out, sh := quantity.NewQuantity(), quantity.NewQuantity(), quantity.NewQuantity()
+	n := symx.Cfg("n", 2)
 	for i := 0; i < n; i++ {
-		who := symx.Choose(symx.N("who", i), 2)
 		if symx.Choose(symx.N("kind", i), 2) == 0 {
 			a := c15Q(symx.N("a", i))
 			src := a.Clone()
-			if _, err := p.Deposit(sh[who], src, a); err == nil {
-				_ = in[who].Add(a)
+			if _, err := p.Deposit(sh, src, a); err == nil {
+				_ = in.Add(a)
 			}
 		} else {
 			k := c15Q(symx.N("k", i))
-			symx.Assume(k.Cmp(sh[who]) <= 0)
-			if err := p.Withdraw(out[who], sh[who], k); err != nil {
+			symx.Assume(k.Cmp(sh) <= 0)
+			if err := p.Withdraw(out, sh, k); err != nil {
 				symx.Unreachable("withdraw of owned shares failed")
 			}
 		}
-		for j := range in {
-			worth, _ := p.StakeForShares(sh[j])
-			tot := out[j].Clone()
-			_ = tot.Add(worth)
-			symx.Assert(tot.Cmp(in[j]) <= 0, "a depositor can take out more than was put in")
-		}
+		worth, _ := p.StakeForShares(sh)
+		tot := out.Clone()
+		_ = tot.Add(worth)
+		symx.Assert(tot.Cmp(in) <= 0, "an account can take out more than it put in")
+		c15Inv(p)
 	}
 	symx.Cover("end")
 }
